@@ -1,6 +1,6 @@
 (* Copy/Examples.v — the model on concrete inputs (non-vacuity of the theorems' hypotheses and
    regression of the interesting arms). *)
-From Verif Require Import Go.Ty Go.Val Go.Equal Copy.Model.
+From Verif Require Import Go.Ty Go.Val Go.Equal Copy.Model Copy.Frame.
 From Coq Require Import Lia.
 Open Scope N_scope.
 
@@ -109,3 +109,14 @@ Example ex_map_array :
                   (VMap 4 [(VStr [97%N], VArr [VNilP; VPtr 5 (VInt 3)])]) 100
   = Ok (VMap 15 [(VStr [97%N], VArr [VNilP; VPtr 100 (VInt 3)])], 101%N).
 Proof. vm_compute. reflexivity. Qed.
+
+(* a write to the object at label 100 (the new target of A[0]) changes the copy and not the source;
+   a write to the source's object 3 changes the source and not the copy *)
+Example ex_write :
+  match deepcopy_top [] (TP exT) ex_dst ex_src 100 with
+  | Ok (r, _) =>
+      upd 100 (fun _ => VNilP) r <> r /\ upd 100 (fun _ => VNilP) ex_src = ex_src /\
+      upd 3 (fun _ => VNilP) ex_src <> ex_src /\ upd 3 (fun _ => VNilP) r = r
+  | _ => False
+  end.
+Proof. vm_compute. repeat split; try reflexivity; discriminate. Qed.
